@@ -9,7 +9,7 @@ ID = "C14"
 COQ_DIR = "C14"
 RUN_MOD = "C14.Run"
 MODEL_TARGETS = ["C14/Run.vo"]
-PROOF_TARGETS = ["C14/Lemmas.vo"]
+PROOF_TARGETS = ["C14/Lemmas.vo", "C14/LemWorld.vo"]
 PROPS = ["C14/Props.v"]
 ALLOWED_AXIOMS = []
 IMPL_TIMEOUT = 10.0
@@ -246,6 +246,28 @@ def extract_consts(repo):
     if not acc:
         raise ExtractError("GlobalPalette: no accessors found")
     out["accessors"] = acc
+    # Palette.register_in_colors_conf: [registered? return] [parents] ([registered? return])? [own defaults]
+    pal = _find_class(tree, "Palette")
+    rg = _class_func(pal, "register_in_colors_conf")
+    body = [st for st in rg.body if not (isinstance(st, ast.Expr) and isinstance(st.value, ast.Constant))]
+
+    def dump(src):
+        return [ast.dump(n) for n in ast.parse(src).body]
+    chk = dump("if colors_conf.color_conf_component_is_registered(cls):\n    return\n")
+    par = dump("if cls.PARENT_PALETTES is not None:\n    for p_cls in cls.PARENT_PALETTES:\n"
+               "        p_cls.register_in_colors_conf(colors_conf)\n")
+    par2 = dump("if cls.PARENT_PALETTES is not None:\n    for p_cls in cls.PARENT_PALETTES:\n"
+                "        p_cls.register_in_colors_conf(colors_conf)\n"
+                "    if colors_conf.color_conf_component_is_registered(cls):\n        return\n")
+    own = dump("if cls.SYNTAX_DEFAULTS is not None:\n"
+               "    colors_conf.register_color_conf_component(cls.SYNTAX_DEFAULTS, cls)\n")
+    got = [ast.dump(n) for n in body]
+    if got == chk + par + own:
+        out["reg_recheck"] = False
+    elif got in (chk + par2 + own, chk + par + chk + own):
+        out["reg_recheck"] = True
+    else:
+        raise ExtractError("Palette.register_in_colors_conf has an unexpected shape")
     return out
 
 
@@ -275,6 +297,8 @@ def gen_consts(repo):
              f"Definition dflt_id : list Z := {SX.cstr(c['dflt'])}.",
              f"Definition builtin_config : list (list Z * cval) := {_flat_cfg_term(c['builtin'])}.",
              "Definition accessors : list (list Z) := " + SX.clist(SX.cstr(v) for _, v in c["accessors"]) + ".",
+             "(* Palette.register_in_colors_conf: is `already registered?` asked again after the PARENT_PALETTES loop *)",
+             f"Definition reg_recheck : bool := {SX.cbool(c['reg_recheck'])}.",
              ""]
     return {"C14_Consts": "\n".join(lines)}
 
@@ -295,7 +319,7 @@ def _consts():
                                      ("warn", "WARN"), ("error", "ERROR")],
                        "builtin": {"TEXT": "", "NAME": "GREEN:bold", "KEYWORD": "BLUE:bold", "NUMBER": "YELLOW",
                                    "OK": "GREEN:bold", "WARN": "RED", "ERROR": "RED:bold"},
-                       "dflt": "TEXT"}
+                       "dflt": "TEXT", "reg_recheck": False}
     return _CONSTS
 
 
@@ -554,6 +578,8 @@ def gen_cases(rng, tier):
     # a few non-ASCII descriptions (outside the modelled domain: oracle only)
     for s in ["RED:bold ", "１２", "Aé:bold", " BLUE"]:
         cases.append({"nc": False, "init": {"A": "GREEN", "B": s}, "builtin": {}, "watch": ["A", "B"], "ops": []})
+    # 8. sessions on the module state: several configurations, the global one, synced palettes, shared dictionaries
+    cases += _world_cases(rng, 2500 if big else 220)
     return cases
 
 
@@ -562,6 +588,7 @@ def search_cases(rng, tier):
     for _ in range(3000):
         descs = _rand_set(rng, rng.choice([2, 3, 4, 6]))
         out.append(_split_case(rng, descs))
+    out += _world_cases(rng, 1500)
     return out
 
 
@@ -583,13 +610,40 @@ def _all_strings(case):
 
 
 def kind(case):
+    if case.get("t") == "world":
+        return "world:" + "+".join(sorted({op["k"] for op in case["ops"]}))
     ks = sorted({op["k"] for op in case["ops"]})
     return ("nocolor+" if case["nc"] else "") + ("init" if not ks else "+".join(ks))
 
 
 # ------------------------------------------------------------------ implementation
+def _canon(o):
+    """order-preserving canonical text of a (nested) dict: argument objects are compared with it"""
+    import json
+    return json.dumps(o, sort_keys=False, default=repr)
+
+
 def impl_run(case):
+    if case.get("t") == "world":
+        return _impl_world(case)
+    obs = _impl_single(case)
+    return obs
+
+
+def _impl_single(case):
+    import copy
     from ak import color as C
+    orig = _canon([case["init"], case["builtin"], [op.get("items") for op in case["ops"]],
+                   C.ColorsConfig.BUILT_IN_CONFIG])
+    obs = _impl_single_run(case, C)
+    now = _canon([case["init"], case["builtin"], [op.get("items") for op in case["ops"]],
+                  C.ColorsConfig.BUILT_IN_CONFIG])
+    if now != orig:
+        obs["mut"] = 1
+    return obs
+
+
+def _impl_single_run(case, C):
     watch = case["watch"]
 
     def observe(conf):
@@ -636,6 +690,8 @@ def _items_term(d):
 
 
 def coq_case(case, obs):
+    if case.get("t") == "world":
+        return _coq_world(case)
     ops = []
     for op in case["ops"]:
         if op["k"] == "reg":
@@ -660,6 +716,8 @@ def _params(text):
 
 
 def expected_sx(case, obs):
+    if case.get("t") == "world":
+        return _expected_world(case, obs)
     out = []
     accs = _consts()["accessors"]
     for st in obs["steps"]:
@@ -673,6 +731,8 @@ def expected_sx(case, obs):
 
 
 def in_model(case, obs):
+    if case.get("t") == "world":
+        return _in_model_world(case, obs)
     if "__hang__" in obs:
         return False
     for s in _all_strings(case):
@@ -854,8 +914,13 @@ def _oracle_batches(case):
 
 
 def oracle(case, obs):
+    if case.get("t") == "world":
+        return _oracle_world(case, obs)
     if "__hang__" in obs:
         return [("hang", "the registration did not return")]
+    if obs.get("mut"):
+        return [("argument-mutated", "a dictionary passed to ColorsConfig / add_new_items / a Palette class "
+                                     "(or BUILT_IN_CONFIG) was modified")]
     batches, marks = _oracle_batches(case)
     if batches is None:
         return []
@@ -915,8 +980,8 @@ def oracle(case, obs):
 
 
 def nontrivial(case, obs):
-    for s in _all_strings(case):
-        pass
+    if case.get("t") == "world":
+        return any(op["k"] in ("setg", "synced", "reg", "use", "regcls") for op in case["ops"])
     batches, _ = _oracle_batches(case)
     if batches is None:
         return True
@@ -936,6 +1001,9 @@ def outcome(case, obs):
 
 
 def shrink_candidates(case):
+    if case.get("t") == "world":
+        yield from _shrink_world(case)
+        return
     # drop an operation, a watched id, or one description
     for i in range(len(case["ops"])):
         c = dict(case)
@@ -955,6 +1023,578 @@ def shrink_candidates(case):
                 c["ops"] = list(case["ops"])
                 c["ops"][i] = {"k": op["k"], "items": {kk: vv for kk, vv in op["items"].items() if kk != k}}
                 yield c
+
+
+# ====================================================================== world sessions
+# A "world" case drives the module state of a freshly imported ak.color: several ColorsConfig objects, the
+# global one, Palette classes (SYNTAX_DEFAULTS / PARENT_PALETTES / ConfColor accessors), synced palettes.
+# Dictionaries live in a pool (`objs`) and are passed BY REFERENCE wherever an operation names them, several
+# times if the generator says so - as a program holding module-level defaults would do.
+W_BUILTIN = ["TEXT", "NAME", "KEYWORD", "NUMBER", "OK", "WARN", "ERROR"]
+W_FREE = ["A", "B", "C", "T.A", "T.B"]
+
+
+def _class_ids(k):
+    return ["P%d.A" % k, "P%d.B" % k, "P%d.S.C" % k]
+
+
+def _full_acc(cl):
+    """(_LOCAL_SYNTAX of the class) [(attribute name, syntax id)]"""
+    base = list(_consts()["accessors"]) if cl["g"] else [("text", _consts()["dflt"])]
+    return [(a, i) for a, i in base] + [(a, i) for a, i in cl["acc"]]
+
+
+def _rand_world(rng, scenario=None):
+    ncls = rng.choice([1, 2, 2, 3, 3])
+    cids = {k: _class_ids(k) for k in range(1, ncls + 1)}
+    all_cids = [i for k in cids for i in cids[k]]
+    universe = W_BUILTIN + W_FREE + all_cids
+    rank = universe[:]
+    rng.shuffle(rank)
+    if rng.random() < 0.6:
+        # the ids the components provide come first: the configuration's items may refer to them
+        rank = [i for i in rank if i in all_cids] + [i for i in rank if i not in all_cids]
+    pos = {i: n for n, i in enumerate(rank)}
+
+    def descr(sid, prefer=()):
+        lower = [i for i in rank[:pos[sid]]]
+        pref = [i for i in prefer if i in lower]
+        r = rng.random()
+        if pref and r < 0.7:
+            parent = rng.choice(pref)
+        elif lower and r < 0.6:
+            parent = rng.choice(lower)
+        elif r < 0.66:
+            parent = "X1"
+        else:
+            parent = None
+        return _rand_descr(rng, parent)
+
+    def pack(flat, may_nest=True):
+        items = list(flat.items())
+        rng.shuffle(items)
+        flat = dict(items)
+        return _nest(flat, rng) if may_nest and rng.random() < 0.5 else flat
+
+    objs = []
+    flat_objs = []
+
+    def add_obj(o):
+        objs.append(o)
+        if all(isinstance(v, str) for v in o.values()):
+            flat_objs.append(len(objs) - 1)
+        return len(objs) - 1
+
+    classes = []
+    for k in range(1, ncls + 1):
+        r = rng.random()
+        if r < 0.1:
+            d = None
+        elif r < 0.22 and any(c["d"] is not None for c in classes):
+            d = rng.choice([c["d"] for c in classes if c["d"] is not None])       # shared defaults dictionary
+        else:
+            ids = rng.sample(cids[k], rng.choice([1, 2, 3]))
+            ids += rng.sample(W_FREE + W_BUILTIN[1:] + [i for i in all_cids if i not in cids[k]], rng.choice([0, 0, 1, 2]))
+            d = add_obj(pack({i: descr(i, prefer=all_cids) for i in ids}))
+        pool = cids[k] * 2 + all_cids + W_FREE + W_BUILTIN
+        acc = []
+        for n in range(rng.choice([1, 2, 3])):
+            acc.append(["a%d" % n, rng.choice(pool)])
+        parents = [p for p in range(1, k) if rng.random() < 0.35]
+        classes.append({"d": d, "parents": parents, "acc": acc, "g": rng.random() < 0.2})
+    later_ids = [i for k in cids for i in cids[k]]
+    inits = []
+    for _ in range(rng.choice([1, 2, 3])):
+        ids = rng.sample(W_BUILTIN[1:] + W_FREE + all_cids, rng.choice([1, 2, 3, 4, 5]))
+        if rng.random() < 0.7:
+            ids = list(dict.fromkeys(ids + [rng.choice(["KEYWORD", "NAME", "OK", "WARN", "ERROR"])]))
+        inits.append(add_obj(pack({i: descr(i, prefer=later_ids) for i in ids})))
+    regs = []
+    for _ in range(rng.choice([1, 2])):
+        ids = rng.sample(W_FREE + all_cids + W_BUILTIN[1:], rng.choice([1, 2, 3, 4]))
+        regs.append(add_obj(pack({i: descr(i, prefer=later_ids) for i in ids}, may_nest=False)))
+    builtins = []
+    if rng.random() < 0.3:
+        ids = ["TEXT"] + rng.sample(W_BUILTIN[1:] + W_FREE, rng.choice([1, 2, 3]))
+        builtins.append(add_obj(pack({i: descr(i) for i in ids})))
+
+    nconf = 1
+    ops = []
+
+    def op_new():
+        nonlocal nconf
+        r = rng.random()
+        init = None if r < 0.1 else rng.choice(inits + ([rng.choice(range(len(objs)))] if rng.random() < 0.15 else []))
+        b = rng.choice(builtins) if builtins and rng.random() < 0.4 else None
+        ops.append({"k": "new", "nc": rng.random() < 0.06, "init": init, "builtin": b})
+        nconf += 1
+        return nconf - 1
+
+    def cref():
+        return None if rng.random() < 0.35 else rng.randrange(nconf)
+
+    def op_random():
+        nonlocal nconf
+        r = rng.random()
+        if r < 0.14:
+            op_new()
+        elif r < 0.30:
+            if rng.random() < 0.12:
+                ops.append({"k": "setg", "c": None})
+                nconf += 1
+            else:
+                ops.append({"k": "setg", "c": rng.randrange(nconf)})
+        elif r < 0.48:
+            ops.append({"k": "synced", "cls": rng.randrange(0 if rng.random() < 0.1 else 1, ncls + 1)})
+        elif r < 0.66:
+            ops.append({"k": "reg", "c": cref(), "items": rng.choice(regs * 3 + flat_objs)})
+        elif r < 0.74:
+            ops.append({"k": "regcls", "cls": rng.randrange(1, ncls + 1), "c": cref()})
+        elif r < 0.90:
+            ops.append({"k": "use", "cls": rng.randrange(1, ncls + 1), "c": cref(), "via": rng.choice(["ctor", "ctor", "user"])})
+        else:
+            ops.append({"k": "pal", "c": cref()})
+
+    if scenario is None:
+        scenario = rng.choice(["install", "install", "reuse", "free"])
+    if scenario == "install":
+        # components with synced palettes exist, then the application installs its configuration
+        order = list(range(1, ncls + 1))
+        rng.shuffle(order)
+        for k in order[:rng.choice([1, 2, 3])]:
+            ops.append({"k": "synced", "cls": k})
+        c = op_new()
+        if rng.random() < 0.25:
+            ops.append({"k": rng.choice(["pal", "regcls", "use"]), "c": c, "cls": rng.randrange(1, ncls + 1), "via": "ctor"})
+        ops.append({"k": "setg", "c": c})
+    elif scenario == "reuse":
+        # the same defaults dictionary registered directly in several configurations
+        o = rng.choice(regs)
+        c1 = op_new()
+        ops.append({"k": "reg", "c": c1, "items": o})
+        c2 = op_new() if rng.random() < 0.7 else 0
+        ops.append({"k": "reg", "c": c2, "items": o})
+        if rng.random() < 0.5:
+            ops.append({"k": "reg", "c": rng.choice([c1, c2, None]), "items": rng.choice(regs)})
+    for _ in range(rng.choice([1, 2, 3, 4, 5])):
+        op_random()
+    used = set()
+    for o in objs:
+        flat = _flatten_ref(o) or {}
+        used.update(flat)
+        for v in flat.values():
+            d = doc_parse(v)
+            if d and d[0]:
+                used.add(d[0])
+    used = sorted(used)
+    watch = sorted(set(rng.sample(used, min(len(used), 5))) | {"KEYWORD", rng.choice(["TEXT", "X1", "NAME"])})
+    return {"t": "world", "objs": objs, "classes": classes, "watch": watch, "ops": ops}
+
+
+WORLD_WITNESS = [
+    # the re-entrancy defect repaired by a35bf60 (signature synced-parent-reentrancy): a synced palette whose class has
+    # PARENT_PALETTES with SYNTAX_DEFAULTS (like PPEnumFieldType.EnumPalette(synced=True)) + a new global configuration
+    {"t": "world", "objs": [{"BASE.X": "RED"}, {"COMP.Y": "BASE.X:bold"}, {}],
+     "classes": [{"d": 0, "parents": [], "acc": [["x", "BASE.X"]], "g": False},
+                 {"d": 1, "parents": [1], "acc": [["y", "COMP.Y"]], "g": False}],
+     "watch": ["BASE.X", "COMP.Y", "KEYWORD", "TEXT"],
+     "ops": [{"k": "synced", "cls": 2}, {"k": "new", "nc": False, "init": 2, "builtin": None}, {"k": "setg", "c": 1},
+             {"k": "setg", "c": None}, {"k": "use", "cls": 1, "c": None, "via": "user"}]},
+    # a configuration whose explicit items refer to ids that only a later synced component provides
+    {"t": "world", "objs": [{"COMP.ACCENT": "RED"}, {"KEYWORD": "COMP.ACCENT:bold", "APP": {"HL": "COMP.ACCENT:/BLUE:underline"}}],
+     "classes": [{"d": None, "parents": [], "acc": [["highlight", "APP.HL"]], "g": False},
+                 {"d": 0, "parents": [], "acc": [["accent", "COMP.ACCENT"]], "g": False}],
+     "watch": ["APP.HL", "COMP.ACCENT", "KEYWORD", "TEXT"],
+     "ops": [{"k": "setg", "c": None}, {"k": "synced", "cls": 1}, {"k": "synced", "cls": 2},
+             {"k": "new", "nc": False, "init": 1, "builtin": None}, {"k": "setg", "c": 2}, {"k": "pal", "c": 2},
+             {"k": "setg", "c": None}]},
+    # one defaults dictionary registered directly in two configurations, the first one overrides an id
+    {"t": "world", "objs": [{"R.TITLE": "CYAN/g3:bold", "R.SUB": "R.TITLE:no_bold", "R.NOTE": "R.SUB:-:faint"},
+                            {"R": {"TITLE": "MAGENTA"}}, {}],
+     "classes": [], "watch": ["R.NOTE", "R.SUB", "R.TITLE", "TEXT"],
+     "ops": [{"k": "new", "nc": False, "init": 1, "builtin": None}, {"k": "reg", "c": 1, "items": 0},
+             {"k": "new", "nc": False, "init": 2, "builtin": None}, {"k": "reg", "c": 2, "items": 0},
+             {"k": "reg", "c": None, "items": 0}, {"k": "pal", "c": None}]},
+]
+
+
+def _world_cases(rng, n):
+    out = []          # WORLD_WITNESS is in corpus/C14/witnesses.json
+    for _ in range(n):
+        out.append(_rand_world(rng))
+    return out
+
+
+def _impl_world(case):
+    import copy
+    import importlib
+    import ak.color
+    C = importlib.reload(ak.color)          # the module state of a fresh import
+    objs = case["objs"]
+    orig = [_canon(o) for o in objs] + [_canon(C.ColorsConfig.BUILT_IN_CONFIG)]
+    watch = case["watch"]
+    classes = [C.GlobalPalette]
+    accs = [list(_consts()["accessors"])]
+    for n, cl in enumerate(case["classes"]):
+        ns = {}
+        if cl["d"] is not None:
+            ns["SYNTAX_DEFAULTS"] = objs[cl["d"]]
+        if cl["parents"]:
+            ns["PARENT_PALETTES"] = [classes[p] for p in cl["parents"]]
+        for a, sid in cl["acc"]:
+            ns[a] = C.ConfColor(sid)
+        classes.append(type("P%d" % (n + 1), (C.GlobalPalette if cl["g"] else C.Palette,), ns))
+        accs.append(_full_acc(cl))
+    is_g = [True] + [bool(cl["g"]) for cl in case["classes"]]
+    confs = [C.get_global_colors_config()]
+    synced = [(C.global_palette, 0)]
+
+    def fmt(f):
+        return str(f("x"))
+
+    def attrs(p, k):
+        return [fmt(getattr(p, a)) for a, _ in accs[k]]
+
+    def ref_attrs(conf, k):
+        return [fmt(conf.get_color(sid)) for _, sid in accs[k]]
+
+    def index_of(conf):
+        for n, c in enumerate(confs):
+            if c is conf:
+                return n
+        return -1
+
+    def snapshot():
+        g = C.get_global_colors_config()
+        now = [_canon(o) for o in objs] + [_canon(C.ColorsConfig.BUILT_IN_CONFIG)]
+        return [index_of(g),
+                [[fmt(c.get_color(i)) for i in watch] for c in confs],
+                [[attrs(p, k), [fmt(p[i]) for i in watch] if is_g[k] else None, ref_attrs(g, k)] for p, k in synced],
+                [n for n, (a, b) in enumerate(zip(orig, now)) if a != b]]
+
+    steps = [["ok", 0, [], None] + snapshot()]
+    for n, op in enumerate(case["ops"]):
+        try:
+            k = op["k"]
+            idx, pal, extra = 0, [], None
+            conf = None
+            if k != "new" and k != "synced" and op.get("c") is not None:
+                conf = confs[op["c"]]
+            if k == "new":
+                cls = C.ColorsConfig
+                if op["builtin"] is not None:
+                    cls = type("Cfg", (C.ColorsConfig,), {"BUILT_IN_CONFIG": objs[op["builtin"]], "__slots__": ()})
+                c = cls(no_color=op["nc"]) if op["init"] is None else cls(objs[op["init"]], no_color=op["nc"])
+                confs.append(c)
+                idx = len(confs) - 1
+            elif k == "setg":
+                C.set_global_colors_config(conf)
+                if conf is None:
+                    g = C.get_global_colors_config()
+                    if index_of(g) < 0:
+                        confs.append(g)
+                    idx = index_of(g)
+                else:
+                    idx = op["c"]
+            elif k == "synced":
+                p = classes[op["cls"]](synced=True)
+                j = [n for n, (q, _) in enumerate(synced) if q is p]
+                if not j:
+                    synced.append((p, op["cls"]))
+                    j = [len(synced) - 1]
+                idx = j[0]
+                pal = attrs(p, op["cls"])
+            elif k == "reg":
+                (conf if conf is not None else C.get_global_colors_config()).add_new_items(objs[op["items"]], "later %d" % n)
+            elif k == "regcls":
+                classes[op["cls"]].register_in_colors_conf(conf if conf is not None else C.get_global_colors_config())
+            elif k == "use":
+                if op["via"] == "user":
+                    U = type("U%d" % n, (C.PaletteUser,), {"PALETTE_CLASS": classes[op["cls"]]})
+                    p = U._mk_palette(None, False, conf)
+                else:
+                    p = classes[op["cls"]](conf) if conf is not None else classes[op["cls"]]()
+                pal = attrs(p, op["cls"])
+                the_conf = conf if conf is not None else C.get_global_colors_config()
+                extra = [ref_attrs(the_conf, op["cls"]),
+                         [fmt(p[i]) for i in watch] if is_g[op["cls"]] else None,
+                         [fmt(the_conf.get_color(i)) for i in watch]]
+            else:
+                the_conf = conf if conf is not None else C.get_global_colors_config()
+                p = the_conf.get_palette()
+                pal = attrs(p, 0)
+                extra = [ref_attrs(the_conf, 0), [fmt(p[i]) for i in watch], [fmt(the_conf.get_color(i)) for i in watch]]
+            steps.append(["ok", idx, pal, extra] + snapshot())
+        except Exception as e:
+            steps.append(["err", SX.exc_name(e)])
+            break
+    return {"steps": steps}
+
+
+def _cref_term(c):
+    return "None" if c is None else f"(Some {SX.cnat(c)})"
+
+
+def _nat_list(l):
+    return "[" + "; ".join(SX.cnat(x) for x in l) + "]" if l else "(@nil nat)"
+
+
+def _coq_world(case):
+    objs = case["objs"]
+    cls_terms = []
+    for cl in case["classes"]:
+        d = "None" if cl["d"] is None else f"(Some {_cfg_term(objs[cl['d']])})"
+        acc = SX.clist(SX.cstr(sid) for _, sid in _full_acc(cl))
+        cls_terms.append(f"mk_pclass {d} {_nat_list(cl['parents'])} {acc} {SX.cbool(cl['g'])}")
+    ops = []
+    for op in case["ops"]:
+        k = op["k"]
+        if k == "new":
+            init = "(@nil (list Z * cval))" if op["init"] is None else _cfg_term(objs[op["init"]])
+            b = "None" if op["builtin"] is None else f"(Some {_cfg_term(objs[op['builtin']])})"
+            ops.append(f"WNew {SX.cbool(op['nc'])} {init} {b}")
+        elif k == "setg":
+            ops.append(f"WSetGlobal {_cref_term(op['c'])}")
+        elif k == "synced":
+            ops.append(f"WSynced {SX.cnat(op['cls'])}")
+        elif k == "reg":
+            ops.append(f"WReg {_cref_term(op['c'])} {_items_term(objs[op['items']])}")
+        elif k == "regcls":
+            ops.append(f"WRegCls {SX.cnat(op['cls'])} {_cref_term(op['c'])}")
+        elif k == "use":
+            ops.append(f"WUse {SX.cnat(op['cls'])} {_cref_term(op['c'])}")
+        else:
+            ops.append(f"WPal {_cref_term(op['c'])}")
+    watch = SX.clist(SX.cstr(w) for w in case["watch"]) if case["watch"] else "(@nil (list Z))"
+    return (f"WCase {SX.clist(cls_terms) if cls_terms else '(@nil pclass)'} {watch} "
+            f"{SX.clist(ops) if ops else '(@nil wop)'}")
+
+
+def _expected_world(case, obs):
+    """(table steps): the distinct parameter strings, sorted by code points, and the steps with every formatter
+    replaced by its index in the table - the encoding of C14/Run.v run_world"""
+    seen = set()
+
+    def P(x):
+        t = tuple(_params(x))
+        seen.add(t)
+        return t
+    raw = []
+    for st in obs["steps"]:
+        if st[0] == "err":
+            raw.append(SX.err(st[1]))
+            continue
+        _, idx, pal, _extra, gi, confs, synced, mut = st
+        raw.append([0, idx, [P(x) for x in pal], gi,
+                    [[P(x) for x in row] for row in confs],
+                    [[[P(x) for x in a], [P(x) for x in live] if live is not None else []] for a, live, _ in synced],
+                    list(mut)])
+    table = sorted(seen)
+    pos = {t: n for n, t in enumerate(table)}
+
+    def enc(x):
+        if isinstance(x, tuple):
+            return pos[x]
+        if isinstance(x, list):
+            return [enc(e) for e in x]
+        return x
+    return SX.dumps([[list(t) for t in table], [enc(st) for st in raw]])
+
+
+def _world_strings(case):
+    def walk(d):
+        for k, v in d.items():
+            yield k
+            if isinstance(v, str):
+                yield v
+            elif isinstance(v, dict):
+                yield from walk(v)
+    for o in case["objs"]:
+        yield from walk(o)
+    yield from case["watch"]
+    for cl in case["classes"]:
+        for _, sid in cl["acc"]:
+            yield sid
+
+
+def _in_model_world(case, obs):
+    if "__hang__" in obs:
+        return False
+    if any(ord(ch) > 127 for s in _world_strings(case) for ch in s):
+        return False
+    for op in case["ops"]:
+        if op["k"] == "reg" and not all(isinstance(v, str) for v in case["objs"][op["items"]].values()):
+            return False
+    return True
+
+
+def _oracle_world(case, obs):
+    """the statement on a session, independent of the Coq model: (1) no argument is ever modified, (2) the global
+    configuration is the object that was installed, (3) every access path - accessor attributes of every synced
+    palette, palette[id], a freshly obtained palette - agrees with get_color of the configuration it stands for at the
+    same moment, (4) the colours of every configuration are the resolution of the descriptions registered in it so
+    far (the explicit items first, BUILT_IN_CONFIG, then what components / direct registrations brought)"""
+    if "__hang__" in obs:
+        return [("hang", "the session did not return")]
+    c = _consts()
+    dflt = c["dflt"]
+    objs = case["objs"]
+    flat = [_flatten_ref(o) for o in objs]
+    real_builtin = _flatten_ref(c["builtin"])
+    cls = [{"d": None, "parents": [], "g": True, "accids": [i for _, i in c["accessors"]]}]
+    for cl in case["classes"]:
+        cls.append({"d": cl["d"], "parents": cl["parents"], "g": cl["g"], "accids": [i for _, i in _full_acc(cl)]})
+    confs = [{"nc": False, "batches": [{}, real_builtin], "reg": set()}]
+    state = {"g": 0}
+    synced = [0]
+
+    def register(k, i):
+        if k in confs[i]["reg"]:
+            return
+        for p in cls[k]["parents"]:
+            register(p, i)
+        if cls[k]["d"] is not None:
+            confs[i]["reg"].add(k)
+            confs[i]["batches"].append(flat[cls[k]["d"]])
+
+    def spec_of(conf):
+        """{id: parsed} of a configuration or None when the statement does not speak about it"""
+        S = {}
+        for b in conf["batches"]:
+            if b is None:
+                return None
+            for sid, s in b.items():
+                if sid in S:
+                    continue
+                if not _ID_RE.match(sid):
+                    return None
+                d = doc_parse(s)
+                if d is None:
+                    return None
+                S[sid] = d
+        return None if _has_cycle(S) else S
+
+    out = []
+    steps = obs["steps"]
+    for n in range(len(steps)):
+        st = steps[n]
+        what = "import ak.color" if n == 0 else f"operation {n} ({case['ops'][n - 1]['k']})"
+        op = case["ops"][n - 1] if n else None
+        target = None
+        if op is not None:
+            k = op["k"]
+            ci = op.get("c")
+            if k == "new":
+                b = real_builtin if op["builtin"] is None else flat[op["builtin"]]
+                confs.append({"nc": op["nc"], "batches": [{} if op["init"] is None else flat[op["init"]], b], "reg": set()})
+            elif k == "setg":
+                if ci is None:
+                    confs.append({"nc": False, "batches": [{}, real_builtin], "reg": set()})
+                    ci = len(confs) - 1
+                state["g"] = ci
+                for kk in synced:
+                    register(kk, ci)
+            elif k == "synced":
+                if op["cls"] not in synced:
+                    register(op["cls"], state["g"])
+                    synced.append(op["cls"])
+            elif k == "reg":
+                confs[state["g"] if ci is None else ci]["batches"].append(flat[op["items"]])
+            elif k == "regcls":
+                register(op["cls"], state["g"] if ci is None else ci)
+            elif k == "use":
+                target = state["g"] if ci is None else ci
+                register(op["cls"], target)
+            else:
+                target = state["g"] if ci is None else ci
+        specs = [spec_of(cf) for cf in confs]
+        if st[0] == "err":
+            if all(s is not None for s in specs) and st[1] == "AssertionError" and any(cls[kk]["parents"] for kk in synced):
+                out.append(("synced-parent-reentrancy",
+                            f"{what} raised AssertionError: a synced palette class with PARENT_PALETTES is registered "
+                            f"re-entrantly while the global configuration is re-synced"))
+            elif all(s is not None for s in specs):
+                out.append(("raises-on-valid", f"{what} raised {st[1]} although every configuration holds an acyclic set "
+                                               f"of valid descriptions"))
+            break
+        _, idx, pal, extra, gi, ccols, spals, mut = st
+        if mut:
+            names = ["objs[%d]" % m if m < len(objs) else "ColorsConfig.BUILT_IN_CONFIG" for m in mut]
+            out.append(("argument-mutated", f"after {what}: the caller's dictionaries {names} were modified"))
+            break
+        if gi != state["g"] or len(ccols) != len(confs):
+            out.append(("global-identity", f"after {what}: the global configuration is object #{gi} of {len(ccols)}, "
+                                           f"expected #{state['g']} of {len(confs)}"))
+            break
+        bad = None
+        # (3) access paths agree with the configuration they stand for, at this very moment
+        for j, (a, live, ref) in enumerate(spals):
+            if a != ref:
+                bad = ("synced-stale", f"after {what}: accessor attributes of synced palette #{j} (class {synced[j] if j < len(synced) else '?'}) "
+                                       f"are {a!r}, the global configuration's get_color gives {ref!r}")
+                break
+            if live is not None and 0 <= gi < len(ccols) and live != ccols[gi]:
+                bad = ("synced-stale", f"after {what}: synced palette #{j}[id] gives {live!r}, the global configuration {ccols[gi]!r}")
+                break
+        if bad is None and extra is not None:
+            ref, live, cnow = extra
+            if pal != ref or (live is not None and live != cnow):
+                bad = ("palette-stale", f"after {what}: the palette obtained has {pal!r} / {live!r}, its configuration gives "
+                                        f"{ref!r} / {cnow!r}")
+        # (4) the colours are the resolution of the registered descriptions
+        if bad is None:
+            for i, (cf, S) in enumerate(zip(confs, specs)):
+                if S is None:
+                    continue
+                want = [_spec_color(S, sid, cf["nc"], dflt) for sid in case["watch"]]
+                if ccols[i] != want:
+                    diff = [(sid, g, w) for sid, g, w in zip(case["watch"], ccols[i], want) if g != w][:3]
+                    bad = ("no-color-effects" if cf["nc"] else "wrong-color",
+                           f"after {what}: configuration #{i} gives {diff!r} (id, got, demanded by its descriptions)")
+                    break
+        if bad is None and specs[state["g"]] is not None:
+            S, cf = specs[state["g"]], confs[state["g"]]
+            for j, (a, live, ref) in enumerate(spals):
+                if j >= len(synced):
+                    break
+                want = [_spec_color(S, sid, cf["nc"], dflt) for sid in cls[synced[j]]["accids"]]
+                if a != want:
+                    bad = ("synced-stale", f"after {what}: synced palette #{j} has {a!r}, the global configuration's descriptions demand {want!r}")
+                    break
+        if bad is None and extra is not None and target is not None and specs[target] is not None:
+            kcls = op["cls"] if op["k"] == "use" else 0
+            want = [_spec_color(specs[target], sid, confs[target]["nc"], dflt) for sid in cls[kcls]["accids"]]
+            if pal != want:
+                bad = ("palette-stale", f"after {what}: the palette obtained has {pal!r}, the configuration's descriptions demand {want!r}")
+        if bad is not None:
+            out.append(bad)
+            break
+    return out
+
+
+def _shrink_world(case):
+    for i in range(len(case["ops"])):
+        op = case["ops"][i]
+        if op["k"] in ("new",) or (op["k"] == "setg" and op["c"] is None):
+            continue              # creates a configuration object: later indices depend on it
+        c = dict(case)
+        c["ops"] = case["ops"][:i] + case["ops"][i + 1:]
+        yield c
+    if case["ops"] and case["ops"][-1]["k"] in ("new", "setg"):
+        c = dict(case)
+        c["ops"] = case["ops"][:-1]
+        yield c
+    for n, o in enumerate(case["objs"]):
+        for k in o:
+            c = dict(case)
+            c["objs"] = list(case["objs"])
+            c["objs"][n] = {kk: vv for kk, vv in o.items() if kk != k}
+            yield c
+    for w in case["watch"]:
+        if len(case["watch"]) > 1:
+            c = dict(case)
+            c["watch"] = [x for x in case["watch"] if x != w]
+            yield c
 
 
 TECHNIQUE = ("Coq proof (invariant over registration histories, induction over the resolution walk) on a hand-written "
